@@ -40,14 +40,20 @@ Inductive rx : Type :=
 | RCall (recv : rx) (m : string) (args : list (string * rx))   (* recv.m(args), keyword args by name *)
 | RNew (cls : string) (args : list (string * rx))              (* pa.Partial(...), ld.LocatedDifferential(...) *)
 | RHelper (f : string) (args : list (string * rx))             (* a module-level helper of the same file *)
-| RMapValues (d : rx) (k v : string) (body : rx).              (* util.map_dictionary_values(d, lambda k, v: body) *)
+| RMapValues (d : rx) (k v : string) (body : rx)               (* util.map_dictionary_values(d, lambda k, v: body) *)
+| RVarNames (t : rx)                      (* t._variable_names *)
+| RLen (t : rx)
+| RCmpInt (t : rx) (z : Z).               (* t == z, for a length *)
 
 Inductive rstmt : Type :=
 | RSReturn (t : rx)
 | RSIf (c : rx) (th el : list rstmt)
 | RSAssign (x : string) (t : rx)
 | RSSetField (f : string) (t : rx)        (* self._f = t *)
-| RSExpr (t : rx).
+| RSExpr (t : rx)
+| RSUnpack1 (x : string) (t : rx)         (* (x,) = t *)
+| RSRaise                                 (* raise Exception(...) *)
+| RSRaiseCoord.                           (* raise er.CoordinateMissing(...) *)
 
 Record rfun : Type := mkRFun { r_params : list string; r_body : list rstmt }.
 
@@ -147,6 +153,8 @@ Section Model.
   | RVDeriv (o : deriv_obj)
   | RVDiff (o : diff_obj)
   | RVLocated (o : located_obj)
+  | RVNames (l : list name)               (* a set of variable names, as the duplicate-free list var_names *)
+  | RVNat (n : nat)
   | RVDict (d : list (name * rval))       (* a dict keyed by variable names, in insertion order *)
   | RVPriv (key : string) (w : rval).
 
@@ -253,6 +261,7 @@ Section Model.
         else rstuck
     | RVE e, [RVPoint p] =>
         if String.eqb m "at" then x <- eval N p e ;; Val (RVN x, recv)
+        else if String.eqb m "_evaluate" then x <- eval N p e ;; Val (RVN x, recv)
         else if String.eqb m "_numeric_partials" then d <- numeric_partials N p e (enum e) ;; Val (dictN d, recv)
         else rstuck
     | RVE e, [RVName v] =>
@@ -375,7 +384,7 @@ Section Model.
     | RName x => match rlook x r with Some w => Val (w, fs) | None => rstuck end
     | RNone => Val (RVNone, fs)
     | RZero => Val (RVZero, fs)
-    | RStr s => Val (RVStr s, fs)
+    | RStr s => Val ((if String.eqb s "whatever" then RVName whatever else RVStr s), fs)
     | RField f => match rlook f fs with Some w => Val (w, fs) | None => rstuck end
     | RIsNone a =>
         o <- rev_ self r fs a ;;
@@ -463,6 +472,15 @@ Section Model.
         q <- rargs fs args ;;
         let (ws, fs1) := q in
         w <- rhelper f (map snd ws) ;; Val (w, fs1)
+    | RVarNames a =>
+        o <- rev_ self r fs a ;;
+        let (w, fs1) := o in match w with RVE e => Val (RVNames (var_names e), fs1) | _ => rstuck end
+    | RLen a =>
+        o <- rev_ self r fs a ;;
+        let (w, fs1) := o in match w with RVNames l => Val (RVNat (List.length l), fs1) | _ => rstuck end
+    | RCmpInt a z =>
+        o <- rev_ self r fs a ;;
+        let (w, fs1) := o in match w with RVNat n => (if Z.ltb z 0 then rstuck else Val (RVB (Nat.eqb n (Z.to_nat z)), fs1)) | _ => rstuck end
     | RMapValues d k v body =>
         o <- rev_ self r fs d ;;
         let (wd, fs1) := o in
@@ -502,6 +520,12 @@ Section Model.
     | RSAssign x t => o <- rev_ self r fs t ;; let (w, fs1) := o in Val (inl ((x, w) :: r), fs1)
     | RSSetField f t => o <- rev_ self r fs t ;; let (w, fs1) := o in Val (inl r, set_field f w fs1)
     | RSExpr t => o <- rev_ self r fs t ;; let (_, fs1) := o in Val (inl r, fs1)
+    | RSUnpack1 x t =>
+        o <- rev_ self r fs t ;;
+        let (w, fs1) := o in
+        match w with RVNames [v] => Val (inl ((x, RVName v) :: r), fs1) | _ => rstuck end
+    | RSRaise => raises
+    | RSRaiseCoord => CoordMissing
     end.
 
   Fixpoint rexec_block (self : rval) (r : renv) (fs : rfields) (l : list rstmt) : rres rflow :=
@@ -541,5 +565,7 @@ Arguments RVPartial {T} o.
 Arguments RVDeriv {T} o.
 Arguments RVDiff {T} o.
 Arguments RVLocated {T} o.
+Arguments RVNames {T} l.
+Arguments RVNat {T} n.
 Arguments RVDict {T} d.
 Arguments RVPriv {T} key w.
